@@ -210,7 +210,7 @@ Partners == {OpI(n, "env", "") : n \in {0, 7, 2147483647}}
 
 Bin(o, a, b) == [op |-> o, l |-> a, r |-> b, p |-> 0]
 Un(o, a, p)  == [op |-> o, l |-> a, r |-> NoOperand, p |-> p]
-RoundPs == {0, 1, 2, 5, 16, 30, -1}
+RoundPs == {0, 1, 2, 16, -1}
 
 (* Every operand that occurs on the left of a binary operator / as the operand of a unary one. *)
 BinLefts == IntEnv \cup IntLit \cup DecEnv \cup DecLit \cup FhirOps
